@@ -21,7 +21,7 @@ from harness.e2e_states import bounded_states
 
 PROPERTY = Property(
     'C05', 'Connection state machine follows RFC 3501 section 3',
-    contracts=[ST.do_command_sel, ST.do_command_nosel, ST.do_select, ST.do_close] + RS.CONTRACTS, registry=ST.REG,
+    contracts=[ST.do_command_sel, ST.do_command_nosel, ST.do_select, ST.do_close, ST.do_greeting] + RS.CONTRACTS, registry=ST.REG,
     bounded=[Bounded('command sequences vs. the RFC 3501 automaton (real server)',
                      'every sequence of 1 and 2 commands from 45 (complete built-in command set; valid and invalid '
                      'arguments; existing and missing mailboxes; LOGIN good/bad; AUTHENTICATE PLAIN good/bad/cancel/'
